@@ -239,7 +239,7 @@ func (ps *sparser) mulE() SExpr {
 }
 func (ps *sparser) unary() SExpr {
 	t := ps.peek()
-	if t.kind == "op" && (t.s == "!" || t.s == "-" || t.s == "^") {
+	if t.kind == "op" && (t.s == "!" || t.s == "-" || t.s == "^" || t.s == "*") {
 		ps.p++
 		x := ps.unary()
 		return &SUn{t.s, x}
